@@ -274,6 +274,19 @@ def check_sign(ctx, seed, m, alt_seed):
         ctx.fail('sign-length:', 'sign_message did not return 64 bytes', inp, sig.hex() if sig else 'exception', '64 bytes')
         return
     ctx.expect_model(f'sign_slice {hx(crypto_sign(m, sk))}', f'ok {sig.hex()}', 'sign_message slicing')
+    # the optional encoder only re-encodes the 64 signature bytes
+    import nacl.encoding as _enc
+    for name, encoder in (('HexEncoder', _enc.HexEncoder), ('Base64Encoder', _enc.Base64Encoder), ('URLSafeBase64Encoder', _enc.URLSafeBase64Encoder),
+                          ('Base32Encoder', _enc.Base32Encoder), ('RawEncoder', _enc.RawEncoder)):
+        es = call(sign_message, m, sk, encoder)
+        ctx.count('sign-encoder:' + name)
+        try:
+            dec = encoder.decode(es) if es is not None else None
+        except Exception:
+            dec = None
+        if dec != sig:
+            ctx.fail('sign-encoder:' + name, f'sign_message(..., encoder={name}) is not the {name} encoding of the 64-byte signature (it does not verify once decoded)',
+                     dict(inp, encoder=name), es.hex()[:160] if isinstance(es, bytes) else repr(es), encoder.encode(sig).hex()[:160])
     if call(verify_sign, pk, m, sig) is not True:
         ctx.fail('sign-complete:helper', 'verify_sign rejects the signature made by sign_message under the matching key', inp, 'False/raise', 'True')
     try:
@@ -494,6 +507,18 @@ def mnemonic_cases(ctx):
     for _ in range(ctx.n(300, 3000)):
         check_validity(ctx, [rng.choice(K.words) for _ in range(24)], 'random-24')
     check_validity(ctx, [], 'empty')
+    # lists the password-less generator can emit that ALSO look like "password seeds" (PBKDF2(entropy, "TON fast seed version", 1)[0] == 1,
+    # 1 in 256 of all lists): without a password they are ordinary valid mnemonics
+    found = 0
+    for _try in range(400000):
+        ws = [rng.choice(K.words) for _ in range(24)]
+        if hashlib.pbkdf2_hmac('sha512', ref_entropy(ws), b'TON fast seed version', 1)[0] != 1:
+            continue
+        if ref_valid(ws):
+            check_validity(ctx, ws, 'valid-and-password-seed-shaped')
+            found += 1
+            if found >= ctx.n(2, 6):
+                break
     # valid mnemonics holding the FIRST and the LAST word of the list (index 0 / 2047 are values like any other): found by
     # drawing lists with that word forced at a random position until one is a basic seed (1 in 256)
     for w_ in (K.words[0], K.words[-1], K.words[1]):
